@@ -41,6 +41,23 @@ type c20Workload struct {
 func c20GenCall(rt *rapid.T, kind sim.Kind, label string, g int, n *int) sim.Call {
 	*n++
 	tag := sim.S(fmt.Sprintf("g%d.%d", g, *n))
+	if !isOpen("S26") && g != 99 && rapid.IntRange(0, 3).Draw(rt, label+".read") == 0 {
+		// a read that overlaps the other goroutines' calls (reads took no lock before the S26 repair: the
+		// process died with "concurrent map read and map write")
+		switch kind {
+		case sim.Counter:
+			return sim.Call{M: "Get"}
+		case sim.Map:
+			return sim.Call{M: rapid.SampledFrom([]string{"Get", "Size"}).Draw(rt, label+".rm"), Key: rapid.SampledFrom([]string{"a", "b", "c"}).Draw(rt, label+".rk")}
+		case sim.List:
+			return sim.Call{M: rapid.SampledFrom([]string{"Get", "GetMany", "Size"}).Draw(rt, label+".rm"), Pos: 0, N: 1}
+		default:
+			if rapid.Bool().Draw(rt, label+".rarr") {
+				return sim.Call{M: rapid.SampledFrom([]string{"GetFromArray", "GetValue"}).Draw(rt, label+".rm"), Path: []sim.Step{sim.KStep("arr")}, Pos: 0}
+			}
+			return sim.Call{M: rapid.SampledFrom([]string{"GetValue", "GetFromObject", "ToJSONBytes"}).Draw(rt, label+".rm"), Key: rapid.SampledFrom([]string{"a", "b", "arr"}).Draw(rt, label+".rk")}
+		}
+	}
 	switch kind {
 	case sim.Counter:
 		return sim.Call{M: "IncreaseBy", Vals: []sim.Val{sim.I(int64(rapid.IntRange(-5, 9).Draw(rt, label+".d")))}}
@@ -119,6 +136,7 @@ type c20Outcome struct {
 	stacks      string
 	panics      []string
 	okCalls     int64 // successful mutating calls (outside and inside committed transactions)
+	reads       int64 // read calls (any outcome)
 	committed   int64
 	sum         int64 // sum of deltas of successful counter calls (committed)
 	overlap     int32
@@ -211,6 +229,10 @@ func c20Run(wl c20Workload) (*sim.World, *c20Outcome) {
 						note(fmt.Sprintf("%s: %v at %s", st.Call, res.Panic, res.Stack))
 						return
 					}
+					if !sim.Mutating(st.Call.M) {
+						atomic.AddInt64(&out.reads, 1)
+						continue
+					}
 					if res.Err == nil && res.NavErr == nil {
 						atomic.AddInt64(&out.okCalls, 1)
 						if wl.Kind == sim.Counter {
@@ -228,7 +250,9 @@ func c20Run(wl c20Workload) (*sim.World, *c20Outcome) {
 						if res.Panic != nil {
 							panic(res.Panic)
 						}
-						if res.Err == nil && res.NavErr == nil {
+						if !sim.Mutating(c.M) {
+							atomic.AddInt64(&out.reads, 1)
+						} else if res.Err == nil && res.NavErr == nil {
 							okInTx++
 							if wl.Kind == sim.Counter {
 								sumInTx += c.Vals[0].I
@@ -399,6 +423,9 @@ func testC20(t *testing.T, kind sim.Kind) {
 		b, _ := json.Marshal(wl)
 		if wl.HandleFromTx {
 			labels = append(labels, "shared-handle-obtained-inside-an-earlier-transaction")
+		}
+		if out.reads > 0 {
+			labels = append(labels, "reads-among-the-concurrent-calls")
 		}
 		col.Case(out.overlap == 1 && out.txOverlap == 1, string(b), append(labels, "kind="+string(kind), fmt.Sprintf("goroutines=%d", len(wl.Scripts))), func() interface{} {
 			return map[string]interface{}{"kind": kind, "goroutines": len(wl.Scripts), "script_lengths": func() []int {
